@@ -307,6 +307,18 @@ def run(tier):
     jobs = [('b', b) for b in batches] + [('f', f) for f in forever] + [('p', p) for p in stops]
     fn = {'b': run_batch, 'f': run_forever, 'p': run_poll_stop}
     results = C.parallel(jobs, lambda j: (j[0], fn[j[0]](j[1])))
+    # a count of transmissions depends on which attempt a request is attributed to; on a saturated machine that attribution has been seen
+    # to slip once: a batch with nothing but such findings is played again, one at a time, and counts only when the finding repeats
+    for k, (part, res) in enumerate(results):
+        if part == 'b' and res['problems'] and all(p[0] == 'transmissions' for p in res['problems']):
+            if res.get('replay_dir'):
+                C.rmtree(res['replay_dir'])
+            for it in res['batch']['items']:
+                it.pop('judged', None)
+            again = run_batch(res['batch'])
+            if not again['problems']:
+                chk.count('transmission_counts_not_reproduced')
+            results[k] = (part, again)
     for part, res in results:
         chk.evaluations += 1
         if part == 'b':
